@@ -50,6 +50,8 @@ type c10resp struct {
 	APIVer string `json:"api_version,omitempty"`
 	// DelayMs: the server waits that long before it answers (a slow but healthy service)
 	DelayMs int `json:"delay_ms,omitempty"`
+	// HdrPad: that many bytes of further header lines (a reverse proxy that adds long policy, cookie and tracing headers)
+	HdrPad int `json:"hdr_pad,omitempty"`
 }
 
 func (r c10resp) String() string {
@@ -58,6 +60,9 @@ func (r c10resp) String() string {
 	}
 	if r.DelayMs > 0 {
 		return fmt.Sprintf("%d/%s/%s/%s/after-%dms", r.Status, r.CT, r.Body, r.Frame, r.DelayMs)
+	}
+	if r.HdrPad > 0 {
+		return fmt.Sprintf("%d/%s/%s/%s/headers+%d", r.Status, r.CT, r.Body, r.Frame, r.HdrPad)
 	}
 	return fmt.Sprintf("%d/%s/%s/%s", r.Status, r.CT, r.Body, r.Frame)
 }
@@ -337,6 +342,10 @@ func c10primaries(frames []string, https bool) (out []c10resp) {
 			}
 		}
 	}
+	// a healthy answer behind long header sections (nothing in the statement depends on their size)
+	for _, pad := range []int{5000, 9000, 70000} {
+		out = append(out, c10resp{Status: 200, CT: "json", Body: "obj0", Frame: "cl", HdrPad: pad})
+	}
 	if len(frames) == 1 && frames[0] == "cl" {
 		// quick tier: the other two framings for the answers that carry a JSON value (a body without an
 		// up-front length is as good a body)
@@ -596,6 +605,13 @@ func (s *c10server) respond(rw net.Conn, tc *net.TCPConn, li int, head bool, r c
 	}
 	if r.APIVer != "" {
 		h.WriteString("API-Version: " + r.APIVer + "\r\n")
+	}
+	for n, i := r.HdrPad, 0; n > 0; n, i = n-1000, i+1 {
+		l := n
+		if l > 1000 {
+			l = 1000
+		}
+		fmt.Fprintf(&h, "X-Pad-%d: %s\r\n", i, strings.Repeat("p", l))
 	}
 	frame := r.Frame
 	if head {
